@@ -87,10 +87,62 @@ def rules(ctx):
     c084(ctx)
     c085(ctx)
     c086(ctx)
+    c087(ctx)
     # files are released when the version naming them is superseded; that is sound only if a version is superseded after the
     # manifest edit removing its files is durable (C02.4: Manifest::apply precedes install_version on every path)
     from . import C02
     C02.c024(ctx)
+
+
+def c087(ctx):
+    """Siblings: cleanup_orphans and LsmVerifier::verify_one both turn an edit's removed names into `files to get rid of`.  The orphan scan
+    takes the edit's added names back out (insert from rmed, remove from added: C08.4).  The verifier must do the same: an edit that
+    removes a file and adds it back -- a compaction whose output is identical to one of its inputs -- leaves the file live; it never reaches
+    trash/, so a fragment that waits for it backs off for ever, and when a later fragment really retires it the earlier one unlinks it ahead
+    of the fragment that removed it."""
+    R = "C08.7"
+    ctx.declare(R, "the verifier schedules a removed file for unlinking only if the same edit does not add it back (sibling of the orphan scan's rmed - added)")
+    f = ctx.fn(R, VER + "verify_one")
+    if not f:
+        return
+    rmed = P.call_points(f, r"mani::Edit::rmed$")
+    added = P.call_points(f, r"mani::Edit::added$")
+    ctx.floor(R, "verify_one: reads of the removed names", len(rmed), 1)
+    ctx.floor(R, "verify_one: reads of the added names", len(added), 1)
+    # the list handed back as `files to remove`: the Vec<Setsum> in the Ok tuple
+    lists = set()
+    for p_ in P.ok_points(f):
+        st = f.blocks[p_[0]].st[p_[1]]
+        for s_ in P.origins(f, st["rv"]["ops"][0]):
+            if s_["k"] == "agg" and s_["st"]["rv"].get("tuple"):
+                for o in s_["st"]["rv"]["ops"]:
+                    if o.get("k") in ("copy", "move") and f.locals[o["pl"]["l"]].startswith("alloc::vec::Vec<setsum::Setsum"):
+                        lists |= {o["pl"]["l"]} | {l_ for l_ in K.user_locals(f, o) if f.locals[l_].startswith("alloc::vec::Vec<setsum::Setsum")}
+    ctx.floor(R, "verify_one: removal list returned", len(lists), 1)
+    pushes = [p_ for p_ in P.call_points(f, r"alloc::vec::Vec.*::(push|insert)$|HashSet.*::insert$") if lists & K.base_locals(f, P.term_at(f, p_)["args"][0])]
+    ctx.floor(R, "verify_one: pushes to the removal list", len(pushes), 1)
+    for p_ in pushes:
+        ok = False
+        # (a) the push lies behind a membership test against something filled from edit.added() ...
+        for bb, lab, srcs in K.guards(f, p_):
+            for s_ in srcs:
+                if s_["k"] == "call" and re.search(r"::(contains|contains_key|any|binary_search)$", s_["callee"]):
+                    coll = K.base_locals(f, s_["t"]["args"][0])
+                    fills = [q_ for q_ in P.call_points(f, r"alloc::vec::Vec.*::(push|extend)$|HashSet.*::(insert|extend)$|::collect$") if coll & (K.base_locals(f, P.term_at(f, q_)["args"][0]) | {P.term_at(f, q_)["dest"]["l"]})]
+                    from_added = any(P.reach(f, P.after(f, a_), [q_]) is not None for a_ in added for q_ in fills)
+                    neg = sum(1 for x in srcs if x["k"] == "un" and x["op"] == "Not")
+                    absent_edge = "sw:0" if neg % 2 == 0 else "sw:1"
+                    if from_added and lab == absent_edge:
+                        ok = True
+        # (b) ... or the added names are taken back out of the list afterwards (retain / remove), as the orphan scan does
+        for q_ in P.call_points(f, r"alloc::vec::Vec.*::(retain|remove|swap_remove)$|HashSet.*::remove$"):
+            if lists & K.base_locals(f, P.term_at(f, q_)["args"][0]) and any(P.reach(f, P.after(f, a_), [q_]) is not None for a_ in added):
+                ok = True
+        ctx.check(R, f, "removed-minus-added", ok, "a removed name is scheduled for unlinking only if the same edit does not add it back",
+                  "LsmVerifier::verify_one schedules every removed name of an edit for unlinking, also one the same edit adds back (a compaction whose "
+                  "output is identical to an input): the file stays live and never reaches trash/, so the fragment backs off for ever; once a later "
+                  "fragment really retires the file, this one unlinks it before that fragment has been verified, whose verification then fails with "
+                  "NotFound on every pass", pt=p_)
 
 
 def c081(ctx):
